@@ -491,6 +491,9 @@ def mon_c17(case_line, acts):
         for (a0, a1, p0), (b0, b1, p1) in zip(spans, spans[1:]):
             if a1 > b0:
                 out.append(V('retained entries %s and %s overlap at action #%d' % (p0, p1, i)))
+        if 'ret' in st and 'used' in st and not list_field(st.get('ret', '[]')) and used != 0:
+            out.append(V('nothing is retained at action #%d but %d of the %d bytes of the arena still count as used: a quiescent '
+                         'arena must offer its whole capacity again' % (i, used, cap)))
         if spans and spans[-1][1] > max(used, 0) or used > cap:
             out.append(V('arena bookkeeping broken at action #%d: used=%d cap=%d last end=%s' % (i, used, cap, spans[-1][1] if spans else '-')))
         if st.get('gen') == prev_gen:
@@ -535,12 +538,16 @@ def mon_c02(case_line, acts):
     for ev in fl.events:
         if ev[0] == 'tx':
             per_action_tx.setdefault(ev[3], []).append((ev[1], ev[2]))
+    cur_conn = -1
+    conn_garbled = False
+    written_whole = set()   # (conn, bytes modulo DUP) of every packet completed on the wire
     for i, a in enumerate(acts):
         before = _ret_bytes(acts[i - 1].state) if i > 0 else {}
         after = _ret_bytes(a.state)
         order_before = [int(x.split(':')[0]) for x in list_field((acts[i - 1].state or {}).get('ret', '[]'))] if i > 0 else []
         last_pos = -1
         for conn, p in per_action_tx.get(i, []):
+            written_whole.add((conn, _nodup(p['raw'])))
             if p['type'] != 'PUBLISH' or p.get('qos', 0) == 0:
                 continue
             pid = p['pid']
@@ -561,6 +568,22 @@ def mon_c02(case_line, acts):
                 if pos < last_pos:
                     out.append(V('retained PUBLISH packets written out of acceptance order at action #%d' % i))
                 last_pos = max(last_pos, pos)
+        # marked sent on this connection: then it has been written on this connection, whole (a resumed connection
+        # retransmits every retained PUBLISH from its first byte)
+        if a.code == 0:
+            cur_conn += 1
+            conn_garbled = False
+        if garbles(a, acts[i - 1].state if i > 0 else None):
+            conn_garbled = True
+        if not conn_garbled and a.state:
+            for x in list_field(a.state.get('ret', '[]')):
+                f = x.split(':')
+                if len(f) >= 5 and f[3] == 'S' and f[4] not in ('', '!'):
+                    raw = bytes.fromhex(f[4])
+                    if raw and raw[0] >> 4 == 3 and (cur_conn, _nodup(raw)) not in written_whole:
+                        out.append(V('retained PUBLISH id %s is marked sent at action #%d but was never written whole on '
+                                     'this connection' % (f[0], i)))
+                        conn_garbled = True     # report once per connection
         # an identifier that has left the retained list (acknowledged, or wiped by a fresh broker session) may be used
         # again by a new message with the very same bytes: forget its history
         if a.code == 0 and a.result == 'ok connected':
@@ -1294,6 +1317,13 @@ def mon_c12(case_line, acts):
                     out.append(V('after connect() a queued entry is not at byte 0: %s' % x))
         if st.get('live') != '1':
             out.append(V('connect() returned Ok but the handle is not live'))
+        if sp == 0 and 'quota' in st and 'maxquota' in st:
+            # fully usable: a fresh broker session holds nothing in flight, so the whole send window is open and nothing
+            # of the old session is queued
+            if st['quota'] != st['maxquota'] or list_field(st.get('ret', '[]')) or list_field(st.get('rel', '[]')):
+                out.append(V('after connect() to a fresh broker session the send quota is %s of %s with ret=%s rel=%s: '
+                             'nothing is in flight, the window must be fully open'
+                             % (st['quota'], st['maxquota'], st.get('ret'), st.get('rel'))))
         # usable: the next operation on it, if its own I/O is healthy, does not see a dead connection
         if i + 1 < len(acts):
             b = acts[i + 1]
